@@ -5,6 +5,7 @@ package main
 import (
 	"fmt"
 	"sort"
+	"strings"
 
 	"golang.org/x/tools/go/ssa"
 )
@@ -19,6 +20,9 @@ type HeapBase struct {
 	merged []heapParent
 	memo   map[string]*Term
 	wm     *Term // watermark bounding the references held by the symbolic arrays of this base
+	// keys with one of these prefixes are not havocked: they read through to exceptParent
+	except       []string
+	exceptParent *Heap
 }
 
 var heapBaseCounter int
@@ -33,6 +37,13 @@ func (b *HeapBase) lookup(key string, s *Sort) *Term {
 		return t
 	}
 	var t *Term
+	for _, p := range b.except {
+		if strings.HasPrefix(key, p) {
+			t = b.exceptParent.Get(key, s)
+			b.memo[key] = t
+			return t
+		}
+	}
 	if b.merged == nil {
 		t = Const(fmt.Sprintf("%s@%d", key, b.id), s)
 		regHeapConst(t, key, b.wm)
